@@ -1111,3 +1111,164 @@ Proof.
   split; [vm_compute; discriminate|].
   split; [vm_compute; reflexivity|]. split; [vm_compute; reflexivity|]. split; vm_compute; reflexivity.
 Qed.
+
+(* ====================================================================== IPv6 *)
+Lemma len16 (a : list Z) : length a = 16%nat ->
+  exists a0 a1 a2 a3 a4 a5 a6 a7 a8 a9 a10 a11 a12 a13 a14 a15,
+    a = [a0; a1; a2; a3; a4; a5; a6; a7; a8; a9; a10; a11; a12; a13; a14; a15].
+Proof.
+  intros H.
+  do 16 (destruct a as [|? a]; [discriminate H|]). destruct a; [|discriminate H].
+  repeat eexists.
+Qed.
+
+Definition ip6_hdr (len nh hop : Z) (src dst : list Z) : list Z :=
+  [96; 0; 0; 0; w8 (len / 2^8); w8 len; w8 nh; w8 hop] ++ src ++ dst.
+
+Lemma ipv6_write_flat r hdr payload proto ttl :
+  length (rLocal r) = 16%nat -> length (rRemote r) = 16%nat ->
+  let len := w16 (Z.of_nat (length hdr) + vsize payload) in
+  ipv6_write r hdr payload proto ttl =
+    Some (ip6_hdr len (w8 proto) ttl (rLocal r) (rRemote r) ++ hdr ++ concat payload).
+Proof.
+  intros Ls Ld len.
+  destruct (len16 _ Ls) as (s0&s1&s2&s3&s4&s5&s6&s7&s8&s9&s10&s11&s12&s13&s14&s15&Es).
+  destruct (len16 _ Ld) as (d0&d1&d2&d3&d4&d5&d6&d7&d8&d9&d10&d11&d12&d13&d14&d15&Ed).
+  unfold ipv6_write. fold len. rewrite Es, Ed. rewrite ipv6_encode_flat. cbn [obind]. reflexivity.
+Qed.
+
+Definition transport6_ok (off : bool) (src dst : list Z) (p hop : Z) (tp : list Z) : bool :=
+  let ps := Rfc.pseudo6 src dst p in
+  if p =? 6 then Rfc.wf_tcp off ps tp else if p =? 17 then Rfc.wf_udp off ps tp
+  else if p =? 58 then Rfc.wf_icmp6 hop src dst tp else false.
+
+Lemma wf_ipv6_hdr off len nh hop src dst tp :
+  length src = 16%nat -> length dst = 16%nat ->
+  nth 0 src 0 <> 255 ->
+  len = Rfc.zlen tp -> 0 <= len < 65536 -> 1 <= hop < 256 -> 0 <= nh < 256 ->
+  transport6_ok off src dst nh hop tp = true ->
+  let f := ip6_hdr len nh hop src dst ++ tp in
+  Rfc.wf_ipv6 off f = true /\ Rfc.view_ip6 f = Rfc.mkIV src dst nh hop 0 tp.
+Proof.
+  intros Ls Ld Hsrc Hlen Hl Hhop Hnh Htp f.
+  destruct (len16 _ Ls) as (s0&s1&s2&s3&s4&s5&s6&s7&s8&s9&s10&s11&s12&s13&s14&s15&->).
+  destruct (len16 _ Ld) as (d0&d1&d2&d3&d4&d5&d6&d7&d8&d9&d10&d11&d12&d13&d14&d15&->).
+  set (P := ip6_hdr len nh hop [s0;s1;s2;s3;s4;s5;s6;s7;s8;s9;s10;s11;s12;s13;s14;s15]
+                    [d0;d1;d2;d3;d4;d5;d6;d7;d8;d9;d10;d11;d12;d13;d14;d15]) in *.
+  assert (LP : length P = 40%nat) by reflexivity.
+  assert (B : forall i, (i < 40)%nat -> Rfc.b8 f i = nth i P 0) by (intros i Hi; apply b8_prefix; lia).
+  assert (Ezl : Rfc.zlen f = 40 + len) by (subst f; unfold Rfc.zlen in *; rewrite app_length, LP; lia).
+  assert (Epl : Rfc.ip6_plen f = len).
+  { unfold Rfc.ip6_plen, Rfc.b16. rewrite !B by lia. subst P. cbn [ip6_hdr app nth]. apply be16_rt, Hl. }
+  assert (Enh : Rfc.ip6_nh f = nh) by (unfold Rfc.ip6_nh; rewrite B by lia; subst P; cbn [ip6_hdr app nth]; apply w8_id; lia).
+  assert (Ehop : Rfc.ip6_hop f = hop) by (unfold Rfc.ip6_hop; rewrite B by lia; subst P; cbn [ip6_hdr app nth]; apply w8_id; lia).
+  assert (Esrc : Rfc.ip6_src f = [s0;s1;s2;s3;s4;s5;s6;s7;s8;s9;s10;s11;s12;s13;s14;s15]) by reflexivity.
+  assert (Edst : Rfc.ip6_dst f = [d0;d1;d2;d3;d4;d5;d6;d7;d8;d9;d10;d11;d12;d13;d14;d15]) by reflexivity.
+  assert (Etp : Rfc.ip6_payload f = tp).
+  { unfold Rfc.ip6_payload. change 40%nat with (length P). apply skipn_app_exact. }
+  split.
+  - unfold Rfc.wf_ipv6. rewrite Ezl, Epl, Enh, Ehop, Esrc, Edst, Etp.
+    rewrite (B 0%nat), (B 8%nat) by lia. change (nth 0 P 0) with 96. change (nth 8 P 0) with s0.
+    cbn [nth] in Hsrc. unfold transport6_ok in Htp. cbv zeta in Htp. cbv zeta. rewrite Htp.
+    change (96 / 16 =? 6) with true.
+    destruct (Z.leb_spec 40 (40 + len)); [|lia]. destruct (Z.eqb_spec len (40 + len - 40)); [|lia].
+    destruct (Z.leb_spec 1 hop); [|lia]. destruct (Z.eqb_spec s0 255); [contradiction|]. reflexivity.
+  - unfold Rfc.view_ip6. rewrite Enh, Ehop, Esrc, Edst, Etp. reflexivity.
+Qed.
+
+Theorem tcp_frame_wf6 r sp dp data fl sq ak wnd items ttl :
+  let opts := wire items in
+  let n := Z.of_nat (length opts) in
+  let L := 20 + n + vsize data in
+  rOffload r = false ->
+  length (rLocal r) = 16%nat -> length (rRemote r) = 16%nat -> bytes_ok (rLocal r) -> bytes_ok (rRemote r) ->
+  nth 0 (rLocal r) 0 <> 255 ->
+  0 <= sp < 65536 -> 0 <= dp < 65536 -> 0 <= fl < 256 -> flag_sane fl = true ->
+  Forall wf_item items -> Forall (item_legal (Rfc.has fl Rfc.SYN)) items -> n <= 40 -> n mod 4 = 0 ->
+  Forall bytes_ok data -> nonfinal_even data -> L <= 65535 -> 1 <= ttl < 256 ->
+  exists hdr frame,
+    send_tcp r sp dp data fl sq ak wnd opts = Some hdr /\
+    ipv6_write r hdr data 6 ttl = Some frame /\
+    Rfc.wf_ipv6 false frame = true /\
+    Rfc.view_ip6 frame = Rfc.mkIV (rLocal r) (rRemote r) 6 ttl 0 (hdr ++ concat data) /\
+    Rfc.view_tcp (hdr ++ concat data) =
+      Rfc.mkTV sp dp (w32 sq) (w32 ak) fl (w16 (clampw wnd)) 0 opts (concat data).
+Proof.
+  intros opts n L Hoff Ls Ld Bs Bd Hsrc Hsp Hdp Hfl Hsane Hwf Hleg Hn Hn4 Bdata Hev HL Httl.
+  assert (Hvs : 0 <= vsize data) by (unfold vsize; lia).
+  assert (Bo : bytes_ok opts) by apply wire_ok, Hwf.
+  destruct (send_tcp_flat r sp dp data fl sq ak wnd opts Hoff Bs Bd ltac:(lia) ltac:(lia) Bdata Hev Bo
+              ltac:(fold n; lia) Hn4 ltac:(fold n; fold L; lia)) as [Hsend Hu].
+  fold n in Hsend, Hu. fold L in Hsend, Hu.
+  set (wn := w16 (clampw wnd)) in *.
+  set (ck := xsum_of (rLocal r) (rRemote r) 6 L (tcp_hdr sp dp (w32 sq) (w32 ak) n fl wn 0 opts ++ concat data)) in *.
+  set (hdr := tcp_hdr sp dp (w32 sq) (w32 ak) n fl wn ck opts) in *.
+  assert (Lh : length hdr = (20 + length opts)%nat) by (subst hdr; unfold tcp_hdr, be32; rewrite !app_length; reflexivity).
+  assert (ELen : w16 (Z.of_nat (length hdr) + vsize data) = L).
+  { rewrite Lh. unfold w16. change (2^16) with 65536. rewrite Z.mod_small; subst L n; lia. }
+  pose proof (ipv6_write_flat r hdr data 6 ttl Ls Ld) as Hw. cbv zeta in Hw. rewrite ELen in Hw. change (w8 6) with 6 in Hw.
+  exists hdr, (ip6_hdr L 6 ttl (rLocal r) (rRemote r) ++ hdr ++ concat data).
+  split; [exact Hsend|]. split; [exact Hw|].
+  assert (Ezl : Rfc.zlen (hdr ++ concat data) = L).
+  { unfold Rfc.zlen. rewrite app_length, Lh. subst L n. unfold vsize. lia. }
+  assert (Bdc : bytes_ok (concat data)) by (apply Forall_concat, Bdata).
+  assert (Htcp : Rfc.wf_tcp false (Rfc.pseudo6 (rLocal r) (rRemote r) 6) (hdr ++ concat data) = true /\
+                 Rfc.view_tcp (hdr ++ concat data) = Rfc.mkTV sp dp (w32 sq) (w32 ak) fl wn 0 opts (concat data)).
+  { apply wf_tcp_hdr; try assumption; try apply w32_range; try apply w16_range.
+    fold opts. fold n. fold hdr. rewrite Ezl.
+    subst hdr ck. rewrite tcp_hdr_split by (left; exact Hu). rewrite (tcp_hdr_split _ _ _ _ _ _ _ 0) by (right; reflexivity).
+    change (0 / 256) with 0. change (0 mod 256) with 0.
+    apply xsum_verifies6; try assumption; try lia; try (subst L n; lia); try reflexivity.
+    - apply Forall_app; split; [bytes_tac|]. apply Forall_app; split; [apply be32_ok|].
+      apply Forall_app; split; [apply be32_ok|bytes_tac].
+    - apply Forall_app; split; [bytes_tac|]. apply Forall_app; split; assumption. }
+  destruct Htcp as [Hwf_tcp Hview].
+  destruct (wf_ipv6_hdr false L 6 ttl (rLocal r) (rRemote r) (hdr ++ concat data) Ls Ld Hsrc
+              ltac:(rewrite Ezl; reflexivity) ltac:(subst L n; lia) Httl ltac:(lia)) as [W V].
+  { unfold transport6_ok. exact Hwf_tcp. }
+  split; [exact W|]. split; [exact V|exact Hview].
+Qed.
+
+Theorem udp_frame_wf6_partial r data sp dp ttl :
+  let L := 8 + vsize data in
+  rOffload r = false ->
+  length (rLocal r) = 16%nat -> length (rRemote r) = 16%nat -> bytes_ok (rLocal r) -> bytes_ok (rRemote r) ->
+  nth 0 (rLocal r) 0 <> 255 ->
+  0 <= sp < 65536 -> 0 <= dp < 65536 ->
+  Forall bytes_ok data -> nonfinal_even data -> vsize data <= 65527 -> 1 <= ttl < 256 ->
+  xsum_of (rLocal r) (rRemote r) 17 L (udp_hdr sp dp L 0 ++ concat data) <> 0 ->
+  exists hdr frame,
+    send_udp r data sp dp = Some hdr /\
+    ipv6_write r hdr data 17 ttl = Some frame /\
+    Rfc.wf_ipv6 false frame = true /\
+    Rfc.view_ip6 frame = Rfc.mkIV (rLocal r) (rRemote r) 17 ttl 0 (hdr ++ concat data) /\
+    Rfc.view_udp (hdr ++ concat data) = Rfc.mkUV sp dp L (concat data).
+Proof.
+  intros L Hoff Ls Ld Bs Bd Hsrc Hsp Hdp Bdata Hev Hsz Httl Hnz.
+  assert (Hvs : 0 <= vsize data) by (unfold vsize; lia).
+  destruct (send_udp_flat r data sp dp Hoff Bs Bd ltac:(lia) ltac:(lia) Bdata Hev ltac:(lia)) as [Hsend Hu].
+  fold L in Hsend, Hu.
+  set (ck := xsum_of (rLocal r) (rRemote r) 17 L (udp_hdr sp dp L 0 ++ concat data)) in *.
+  set (hdr := udp_hdr sp dp L ck) in *.
+  assert (ELen : w16 (Z.of_nat (length hdr) + vsize data) = L).
+  { subst hdr. cbn [udp_hdr length]. unfold w16. change (2^16) with 65536. rewrite Z.mod_small; subst L; lia. }
+  pose proof (ipv6_write_flat r hdr data 17 ttl Ls Ld) as Hw. cbv zeta in Hw. rewrite ELen in Hw. change (w8 17) with 17 in Hw.
+  exists hdr, (ip6_hdr L 17 ttl (rLocal r) (rRemote r) ++ hdr ++ concat data).
+  split; [exact Hsend|]. split; [exact Hw|].
+  assert (Ezl : Rfc.zlen (hdr ++ concat data) = L).
+  { unfold Rfc.zlen. rewrite app_length. subst hdr L. cbn [udp_hdr length]. unfold vsize. lia. }
+  assert (Bdc : bytes_ok (concat data)) by (apply Forall_concat, Bdata).
+  assert (Hudp : Rfc.wf_udp false (Rfc.pseudo6 (rLocal r) (rRemote r) 17) (hdr ++ concat data) = true /\
+                 Rfc.view_udp (hdr ++ concat data) = Rfc.mkUV sp dp L (concat data)).
+  { subst hdr.
+    apply (wf_udp_dgram (Rfc.pseudo6 (rLocal r) (rRemote r) 17) sp dp ck (concat data)); try assumption.
+    - change (8 + Rfc.zlen (concat data)) with L. subst L. lia.
+    - change (8 + Rfc.zlen (concat data)) with L. rewrite Ezl. rewrite udp_hdr_split. subst ck. rewrite udp_hdr_split.
+      change (0 / 256) with 0. change (0 mod 256) with 0.
+      apply xsum_verifies6; try assumption; try lia; try (subst L; lia); try reflexivity; bytes_tac. }
+  destruct Hudp as [Hwf_udp Hview].
+  destruct (wf_ipv6_hdr false L 17 ttl (rLocal r) (rRemote r) (hdr ++ concat data) Ls Ld Hsrc
+              ltac:(rewrite Ezl; reflexivity) ltac:(subst L; lia) Httl ltac:(lia)) as [W V].
+  { unfold transport6_ok. exact Hwf_udp. }
+  split; [exact W|]. split; [exact V|exact Hview].
+Qed.
